@@ -171,6 +171,20 @@ pub fn subjects(tier: Tier) -> Vec<Subject> {
         consts: vec![],
         register: false,
     });
+    // no `pub fn main`: whatever the top-level entry points do with such a program (an error, or a
+    // private main), it must not depend on the order of the map of function definitions
+    out.push(Subject {
+        name: "no-main-three-pub-fns".into(),
+        src: "pub fn alpha(x: u8, y: u8) -> u8 {\n  x + y\n}\npub fn beta(x: u16) -> bool {\n  x > 3u16\n}\npub fn gamma(a: [u8; 2], b: bool, c: u8) -> u8 {\n  if b { a[0] } else { c }\n}\n".into(),
+        consts: vec![],
+        register: false,
+    });
+    out.push(Subject {
+        name: "private-main-two-pub-fns".into(),
+        src: "fn main(x: u8) -> u8 {\n  x ^ 1u8\n}\npub fn first(x: u8, y: u8) -> u8 {\n  main(x) + y\n}\npub fn second(z: u16, w: bool) -> u16 {\n  if w { z } else { main(3u8) as u16 }\n}\n".into(),
+        consts: vec![],
+        register: false,
+    });
     // struct / enum patterns and literals with several refutable fields, fields written in
     // non-declaration order, several structs / enums / functions: every map the compiler builds
     // from them has at least two entries
